@@ -70,7 +70,7 @@ def pow (base exponent : Dec) : Res Dec :=
           let r := Dec.mul integerPow f
           if r.inRange then .ok r else .panic .intRange
 
-def tickToMultipliedPrice (tick : Int) (tp : TickParams) : Res Dec := do
+def tickToMultipliedPriceRaw (tick : Int) (tp : TickParams) : Res Dec := do
   let offsetPrice ← pow tp.ratio tp.offset
   if tick = 0 then return Dec.mul offsetPrice Multiplier
   if tick = TICK_MIN then return MinMultipliedSpotPrice
@@ -85,6 +85,13 @@ def tickToMultipliedPrice (tick : Int) (tp : TickParams) : Res Dec := do
   if !mp.inRange then Res.panic .intRange
   if mp.raw > MaxMultipliedSpotPrice.raw ∨ mp.raw < MinMultipliedSpotPrice.raw then Res.err "price-out-of-bound"
   else return mp
+
+/-- TickToMultipliedPrice: a deferred recover turns every panic inside (range overflow of Pow, non-positive ratio,
+    division by a power that rounded to zero) into ErrPriceOutOfBound -/
+def tickToMultipliedPrice (tick : Int) (tp : TickParams) : Res Dec :=
+  match tickToMultipliedPriceRaw tick tp with
+  | .panic _ => .err "price-out-of-bound"
+  | r => r
 
 def tickToSqrtPrice (tick : Int) (tp : TickParams) : Res Dec := do
   let pm ← tickToMultipliedPrice tick tp
